@@ -375,6 +375,13 @@ func (g *gen) testamentPPT(o *Val, p float64) {
 	if !g.chance(p) {
 		return
 	}
+	if g.chance(0.4) {
+		// the meta session then gets PUBLISHED (or ERROR) for its own publication
+		o.D = append(o.D, KV{"acknowledge", Bool(true)})
+		if g.chance(0.5) {
+			return
+		}
+	}
 	o.D = append(o.D, KV{"ppt_scheme", []Val{Str("x_custom"), Str("mqtt"), Str(""), Int('l', 5)}[g.r.IntN(4)]})
 	if g.chance(0.5) {
 		o.D = append(o.D, KV{"ppt_serializer", []Val{Str("json"), Bytes("cbor")}[g.r.IntN(2)]})
